@@ -60,7 +60,7 @@ func (Engine) Describe(prop string) kernel.Describe {
 	switch prop {
 	case "C10":
 		d.Rule = "seeded programs (<= 30 steps quick, <= 45 thorough; composite steps expand into primitive operations) over 1-3 interleaved persisted machines (create with/without parent, possibly after operations on the bare machine; init, sig, add-sig incl. refused signatures, the three enables, update incl. refused candidates, discard - in particular after signing, followed by a new update -, forced update, all phase setters, progression, removal by SetWithdrawn). Before and after every operation the harness snapshots the live machine in its own encoding (index, params encoding+ID, phase, current state+sigs, staged state + sparse signature slots, peers, parent). For EVERY write boundary of EVERY operation (enumerated) the durable image at that boundary is opened by a fresh restorer; RestoreChannel(id) and RestorePeer(one of its peers) must each equal the before- or the after-snapshot (creation: absent or complete; removal: as before or absent), the after-snapshot at the operation's last boundary; every restored non-nil staging signature must verify for the restored staged state; every other live channel must be restored unchanged at every boundary; an operation that returns an error must leave the store unchanged. Relaxed configuration (separate runs): 1-2 write boundaries fail with an error; after the failed operation each view must equal the before- or after-snapshot (no mixture), the channel is then abandoned. evaluations = compared restore results. Non-trivial run: a crash point fell strictly inside a multi-write operation (crash runs) or an injected write error fired (write-error runs); distinct = distinct scenario digests."
-		d.FaultKinds = []string{"crash (after every write boundary, enumerated)", "write-error (chosen write boundaries return an error and are not applied)", "refused operation (wrong phase, invalid candidate, bad signature)"}
+		d.FaultKinds = []string{"crash (after every write boundary, enumerated)", "write-error (chosen write boundaries return an error and are not applied)", "refused operation (wrong phase, invalid candidate, bad signature)", "caller's context already cancelled or expired (every n-th operation in 30 % of the runs)"}
 		d.Assumptions = []string{
 			"a crash happens between write boundaries: a direct Put/PutBytes/Delete or a Batch.Apply is atomic (torn batches and file-level LevelDB corruption are out of scope, as the property's quantifier states)",
 			"every operation of a persisted machine happens after ChannelCreated and before its removal; after an injected write error no further operation is applied to that channel",
@@ -70,7 +70,8 @@ func (Engine) Describe(prop string) kernel.Describe {
 		}
 	case "C11":
 		d.Rule = "seeded histories (<= 40 steps quick, <= 60 thorough) of create (with/without parent, 2-4 peers out of a pool of 6 so that peers are shared), state changes (the C10 alphabet) and removal over 2-6 channels in any order, no faults, memorydb (95%) or LevelDB (5%). After every primitive operation the live restorer is compared with the reference set of live channels: RestoreChannel(id) equals the harness snapshot for live ids and fails for removed ones; RestorePeer(p) for all 6 identities yields exactly the live channels listing p, each with its own data, without error; ActivePeers is exactly the set of peers of live channels; RestoreAll yields exactly the live channels without error; the raw key set (dump of the store) holds no key under a removed channel's prefix and no peer-index entry for it; the restored value of every channel other than the one operated on is byte-identical to what was restored before the operation. evaluations = compared views. Non-trivial run: at least one removal and two live channels sharing a peer; distinct = distinct scenario digests."
-		d.FaultKinds = []string{"none (exploration of histories); refused operations (wrong phase, invalid candidate, bad signature) are part of the histories"}
+		d.FaultKinds = []string{"refused operations (wrong phase, invalid candidate, bad signature) are part of the histories", "failing first/second write of a creation, removal or state change", "caller's context already done",
+			"RestoreAll iteration left open around a step (runs with 8-12 channels)", "removed channel created again under the same ID with other peers"}
 		d.Assumptions = []string{
 			"no operation is applied to a channel after its removal, and a channel ID is created at most once",
 			"a channel lists a peer at most once; peer maps have a single backend entry",
